@@ -277,6 +277,10 @@ CLAIM = {
 
 RE = "run_engine.py"
 MUTANTS = [
+    ("wait returns early when every status reports done, without awaiting the futures (seed C12-c)",
+     [(RE, "            status_objs = self._status_objs.pop(group)\n            try:\n", "            status_objs = self._status_objs.pop(group)\n            if error_on_timeout and all(obj.done for obj in status_objs):\n                return True\n            try:\n")], "C12.D3"),
+    ("the wait on the group is created but not awaited when nothing is watched",
+     [(RE, "                    watch_task.add_done_callback(cancel_status_task_if_error)\n                await status_task\n", "                    watch_task.add_done_callback(cancel_status_task_if_error)\n                    await status_task\n")], "C12.D3"),
     ("close_run clears the per-call status bookkeeping (seed C12-b)", [(RE, "        await self._reset_checkpoint_state_coro()\n        return ret", "        await self._reset_checkpoint_state_coro()\n        if not self._run_bundlers:\n            self._clear_run_cache()\n        return ret")], "C12.D3-pending"),
     ("command errors dropped",
      [(RE, "                    except Exception as e:\n                        new_response = e\n                        continue\n                    # normal use", "                    except Exception as e:\n                        self.log.exception(\"command failed\")\n                        continue\n                    # normal use")], "C12.D1"),
@@ -302,5 +306,6 @@ MUTANTS = [
      [(RE, "                    self._exception = e\n                    fut.set_exception(e)", "                    fut.set_exception(e)")], "C12.D3"),
 ]
 BENIGN = [
+    ("pending-futures test spelled with len", [(RE, "        futs = self._groups.pop(group, set())\n        if futs:\n", "        futs = self._groups.pop(group, set())\n        if len(futs) > 0:\n")]),
     ("exception variable renamed", [(RE, "                    except Exception as e:\n                        new_response = e\n                        continue\n                    # normal use", "                    except Exception as err2:\n                        new_response = err2\n                        continue\n                    # normal use")]),
 ]
